@@ -171,6 +171,13 @@ class FractionalPhase(Longitude):
             angle = angle["frac"]
         return super().__new__(cls, angle, unit=unit, wrap_angle=wrap_angle, **kwargs)
 
+    def __array_ufunc__(self, function, method, *inputs, **kwargs):
+        # Let Phase handle operations it is part of, so that they keep
+        # their precision also when the fractional phase comes first.
+        if any(isinstance(i, Phase) for i in inputs):
+            return NotImplemented
+        return super().__array_ufunc__(function, method, *inputs, **kwargs)
+
 
 def check_imaginary(a):
     """Check whether a value is purely imaginary or purely real.
